@@ -575,7 +575,11 @@ def run_harness(h, keep=False, extra_defines=()):
         if h.text.count('V_COVER(') and not covers:
             raise Undecided('vacuity guard: V_COVER points produced no property')
         unreached = [p for p in covers if p['status'] != 'FAILURE']
-        if unreached:
+        # a changed program may make a reachability witness unreachable *because* it breaks the property (the path the witness
+        # sits on is the one that no longer exists): a failing obligation with its counterexample outranks the vacuity guard
+        if unreached and any(p['kind'] == 'obligation' and p['status'] == 'FAILURE' for p in res['props']):
+            res['covers_unreached_with_violation'] = [p['text'][:80] for p in unreached[:5]]
+        elif unreached:
             raise Undecided('vacuity guard: cover points not reachable: %s' % [p['text'][:80] for p in unreached[:5]])
         # must-fire: each injected loop contract must show base+step obligations
         nloops = sum(1 for i in res['injected'] if i['kind'] == 'loop')
